@@ -247,11 +247,13 @@ func genParse(t *rapid.T) parseCase {
 		syms = append(syms, byte(rapid.IntRange(0, 31).Draw(t, "extra")))
 		s = ref.EncodeSymbols(hrp, syms)
 	}
-	switch h.Pick(t, "case", 6, 2, 1) {
+	switch h.Pick(t, "case", 6, 2, 1, 1) {
 	case 1:
 		s = bgen.Upper(s)
 	case 2:
 		s = bgen.FlipCase(t, s)
+	case 3: // network prefix in one case, the rest in the other
+		s = bgen.SplitCase(s, len(hrp), rapid.Bool().Draw(t, "upfx"))
 	}
 	ne := h.Pick(t, "nedits", 8, 3, 1)
 	for i := 0; i < ne; i++ {
